@@ -382,7 +382,10 @@ class NFBuilder:
                 continue
             # constant NF of dM at x = loc: substitute a symbol, canonicalise with x := loc
             sub = NFBuilder(self.x, lp_val(loc, self.P), self.P, self.sqrtP, self.extra)
-            ts = sub.expr_nf_at_loc(dM, loc)
+            try:
+                ts = sub.expr_nf_at_loc(dM, loc)
+            except ZeroDivisionError:
+                raise Uncanonical('degenerate impulse coefficient (0/0 at the impulse)')
             binom = sp.binomial(n, kk) * (-1) ** kk
             for t in ts:
                 t.c = cmul(t.c, (Fraction(int(binom)) * scale, Fraction(0)))
@@ -462,12 +465,29 @@ def distribute(e, limit=4000):
     return [[e]]
 
 
+def _abs_exp(q):
+    """exp(p + c*Abs(u)) -> exp(p) * (exp(c u) H(u) + exp(-c u) H(-u)) for a single Abs of the variable part"""
+    arg = sp.expand(q.args[0])
+    absd = [a for a in arg.atoms(sp.Abs)]
+    if len(absd) != 1:
+        raise Uncanonical('exponent with several Abs')
+    A = absd[0]
+    c = arg.coeff(A)
+    rest = sp.expand(arg - c * A)
+    if rest.has(sp.Abs) or c.has(sp.Abs) or c == 0:
+        raise Uncanonical('exponent not linear in Abs')
+    u = A.args[0]
+    return sp.exp(rest) * (sp.exp(c * u) * sp.Heaviside(u) + sp.exp(-c * u) * sp.Heaviside(-u))
+
+
 def prep(e):
-    """trig/hyperbolic -> exponentials (only these heads), so that products expand"""
+    """trig/hyperbolic -> exponentials (only these heads), exp(c |u|) -> one-sided exponentials, so that products expand"""
     e = sp.sympify(e)
     for h in (sp.sin, sp.cos, sp.sinh, sp.cosh):
         if e.has(h):
             e = e.replace(lambda q, h=h: isinstance(q, h), lambda q: q.rewrite(sp.exp))
+    if e.has(sp.Abs):
+        e = e.replace(lambda q: isinstance(q, sp.exp) and q.args[0].has(sp.Abs), _abs_exp)
     if e.has(sp.tan) or e.has(sp.tanh) or e.has(sp.Piecewise) or e.has(sp.Integral) or e.has(sp.Derivative):
         raise Uncanonical('unsupported head')
     return e
